@@ -66,7 +66,7 @@ func checkC19(c *Ctx) error {
 			key := fmt.Sprintf("gen%d/rep%d", g, r)
 			c.Eval(key, true)
 			for _, b := range run.Contract() {
-				c.Violate("contract:"+b, fmt.Sprintf("self-compile run (%s) breaks the CLI contract: %s\nstdout:\n%s\nstderr:\n%s", key, b, run.Res.Stdout, run.Res.Stderr), nil)
+				c.Side("C10,C12", "contract:"+b, fmt.Sprintf("self-compile run (%s) breaks the CLI contract: %s\nstdout:\n%s\nstderr:\n%s", key, b, run.Res.Stdout, run.Res.Stderr), nil)
 			}
 			if run.Res.Exit != 0 {
 				c.Violate(fmt.Sprintf("selfcompile-fails-gen%d", g), fmt.Sprintf("generation %d: the tool rejects its own configuration\n%s\n%s", g, run.Res.Stdout, run.Res.Stderr), nil)
